@@ -206,6 +206,8 @@ def caller_stack_matrix():
         ("and_then", lambda e: "=> |v| { %s Some(v + 1) }" % e, 6),
         ("filter", lambda e: "?> |v| { %s *v > 0 }" % e, 5),
         ("then", lambda e: "-> |o: Option<u32>| { %s o }" % e, 5),
+        # the callback of `??` sees the value by reference and may mutate what it captures (Option::inspect takes FnOnce)
+        ("inspect", lambda e: "?? |o: &Option<u32>| { %s }" % e, 5),
     ]
     for kind in ("join", "try_join"):
         for depth in (0, 1, 2):
